@@ -382,6 +382,9 @@ def run(pid, tier, seed, replay):
     fgroups = {}
     for key, recs in fby.items():
         v = fverd.get(key)
+        if v is not None and v["skipped"]:
+            inconclusive.append("free run %s: skipped (the process had given up)" % (key,))
+            continue
         if v is None or not v["ended"] or v["noobs"] or (v["stuck"] and not v["fail"]):
             inconclusive.append("free run %s: %s" % (key, recs[0]["script"]))
             continue
